@@ -1558,3 +1558,34 @@ func isSentinelError(u *ssa.UnOp) bool {
 	}
 	return n == 1 && good
 }
+
+// singleStoreValue: the value of the only store into a local cell (a variable captured by a closure), nil if the cell is
+// stored more than once or written by a closure.
+func singleStoreValue(al *ssa.Alloc) ssa.Value {
+	var val ssa.Value
+	n := 0
+	for _, ref := range refs(al) {
+		switch x := ref.(type) {
+		case *ssa.Store:
+			if x.Addr == ssa.Value(al) {
+				n++
+				val = x.Val
+			}
+		case *ssa.MakeClosure:
+			fn, _ := x.Fn.(*ssa.Function)
+			for i, b := range x.Bindings {
+				if b == ssa.Value(al) && fn != nil && i < len(fn.FreeVars) {
+					for _, r2 := range refs(fn.FreeVars[i]) {
+						if st, ok := r2.(*ssa.Store); ok && st.Addr == ssa.Value(fn.FreeVars[i]) {
+							n += 2
+						}
+					}
+				}
+			}
+		}
+	}
+	if n == 1 {
+		return val
+	}
+	return nil
+}
